@@ -41,5 +41,4 @@ func VerifServerInfoOf(st ServerTransport) VerifServerInfo {
 // VerifServerStreamDone reports whether the stream's state is streamDone.
 func VerifServerStreamDone(s *ServerStream) bool { return s.getState() == streamDone }
 
-// VerifServerStreamID returns the stream id.
-func VerifServerStreamID(s *ServerStream) uint32 { return s.id }
+// (VerifServerStreamID lives in srv.go)
